@@ -3,7 +3,8 @@
    Proofs/CLOProofs.v.  Node positions: Proofs/ReaderPos.v (when present). *)
 From Coq Require Import List NArith ZArith Bool.
 From TexModel Require Import Base Tables Chars Tokenizer CLO.
-From TexProofs Require Import TokProofs CLOProofs.
+From TexModel Require Import Tree Reader.
+From TexProofs Require Import TokProofs CLOProofs StructProofs.
 Import ListNotations.
 Local Open Scope Z_scope.
 
@@ -14,6 +15,17 @@ Theorem C13_token_positions :
     Forall (fun t => slice s (tpos t) (length (ttext t)) = ttext t) toks.
 Proof. exact token_slices. Qed.
 Print Assumptions C13_token_positions.
+
+(* the position recorded for a command, environment, group, math region or text
+   leaf is the recorded position of the first token it was read from (every
+   reader call, every fuel, every nesting depth: each node of the tree is the
+   result of such a call); with C13_token_positions that is the offset of its
+   first character *)
+Theorem C13_node_position_is_first_token :
+  forall f skip strict m c src e rest,
+    read_expr f skip strict m (c :: src) = Ok (e, rest) -> epos e = Some (tpos c).
+Proof. exact read_expr_position. Qed.
+Print Assumptions C13_node_position_is_first_token.
 
 (* char_pos_to_line: for every source and every offset 0 <= i < len the result
    is (number of line feeds before offset i, distance from the last line feed
